@@ -18,6 +18,7 @@ PROFILE = {
 def run(ctx, res):
     import scenarios
     fam = [] if ctx.replay else (scenarios.pick(scenarios.family_grouping(), 250 if ctx.tier == "quick" else 10 ** 6, ctx.seed)
-                                 + scenarios.pick(scenarios.family_a(), 150 if ctx.tier == "quick" else 10 ** 6, ctx.seed + 2))
+                                 + scenarios.pick(scenarios.family_a(), 150 if ctx.tier == "quick" else 10 ** 6, ctx.seed + 2)
+                                 + scenarios.family_suffix() + scenarios.family_names())
     pipeprop.run(ctx, res, "C11", PROFILE, n_quick=350, n_thorough=8000, probe_ids=(), extra_cases=fam)
     res.coverage["scenario_grid"] = {"family": "grouping sequences (add=True, reordering) x summarize names + A", "cases": len(fam)}
